@@ -194,6 +194,10 @@ typecommonreal(struct type *t1, unsigned w1, struct type *t2, unsigned w2)
 		return &typedouble;
 	if (t1 == &typefloat || t2 == &typefloat)
 		return &typefloat;
+#ifdef CPROC_VERIF
+	vtrace("{\"e\":\"prom\",\"t\":\"%s\",\"w\":%d,\"res\":\"%s\"}", vtypename(t1), (int)w1 == -1 ? 0 : (int)w1, vtypename(typepromote(t1, w1)));
+	vtrace("{\"e\":\"prom\",\"t\":\"%s\",\"w\":%d,\"res\":\"%s\"}", vtypename(t2), (int)w2 == -1 ? 0 : (int)w2, vtypename(typepromote(t2, w2)));
+#endif
 	t1 = typepromote(t1, w1);
 	t2 = typepromote(t2, w2);
 	if (t1 == t2)
@@ -260,6 +264,49 @@ typemember(struct type *t, const char *name, unsigned long long *offset)
 	}
 	return NULL;
 }
+
+#ifdef CPROC_VERIF
+/* name of a type for H3 trace events: basic types by identity, enums with their base, derived types by kind */
+const char *
+vtypename(struct type *t)
+{
+	static char buf[4][32];
+	static int n;
+	char *b;
+
+	if (!t) return "null";
+	if (t == &typevoid) return "void";
+	if (t == &typebool) return "bool";
+	if (t == &typechar) return "char";
+	if (t == &typeschar) return "schar";
+	if (t == &typeuchar) return "uchar";
+	if (t == &typeshort) return "short";
+	if (t == &typeushort) return "ushort";
+	if (t == &typeint) return "int";
+	if (t == &typeuint) return "uint";
+	if (t == &typelong) return "long";
+	if (t == &typeulong) return "ulong";
+	if (t == &typellong) return "llong";
+	if (t == &typeullong) return "ullong";
+	if (t == &typefloat) return "float";
+	if (t == &typedouble) return "double";
+	if (t == &typeldouble) return "ldouble";
+	if (t == &typenullptr) return "nullptr";
+	switch (t->kind) {
+	case TYPEENUM:
+		b = buf[n++ % 4];
+		strcpy(b, "enum:");
+		strcat(b, t->base ? vtypename(t->base) : "incomplete");
+		return b;
+	case TYPEPOINTER: return "ptr";
+	case TYPEARRAY: return "arr";
+	case TYPEFUNC: return "fn";
+	case TYPESTRUCT: return "struct";
+	case TYPEUNION: return "union";
+	}
+	return "other";
+}
+#endif
 
 bool
 typehasint(struct type *t, unsigned long long i, bool sign)
